@@ -202,6 +202,21 @@ impl TaskManager {
 	}
 }
 
+impl Drop for TaskManager {
+	fn drop(&mut self) {
+		// Not stopped through `stop()`: do not leave the tasks (and the `Arc<CoreInner>` they
+		// hold) parked on their `Notify` for as long as the runtime lives.
+		self.stop_flag.store(true, Ordering::SeqCst);
+		if let Ok(mut handles) = self.task_handles.lock() {
+			if let Some(handles) = handles.take() {
+				for handle in handles {
+					handle.abort();
+				}
+			}
+		}
+	}
+}
+
 #[cfg(test)]
 mod tests {
 	use std::sync::atomic::{AtomicBool, AtomicUsize, Ordering};
